@@ -265,6 +265,9 @@ class Ctx:
             return list(ex.map(lambda j: self.validate_trace(**j), jobs))
 
     def _account_trace(self, module, trace, what, n_events, st, out):
+        ch = len(re.findall(r'<<"CLONE-HELD", ', out))
+        if ch:
+            self.classes["clones_while_words_held_back"] = self.classes.get("clones_while_words_held_back", 0) + ch
         held = len(re.findall(r'<<"HELD", ', out))
         if held:
             self.classes["trace_steps_with_words_held_back"] = self.classes.get("trace_steps_with_words_held_back", 0) + held
